@@ -335,3 +335,81 @@ Proof.
     inversion R1 as [|a1 p1 x1 R2 Hp1]; subst; [right; reflexivity|]. cbn in Hp1. destruct Hp1. }
   destruct E as [->| ->]; vm_compute; reflexivity.
 Qed.
+
+(* ======================================================================
+   WIDER CLASS OF ENGINES: algorithms with SEVERAL values, a child declaring
+   only some of them (Proofs/Flow3Inv.v, Flow3Main.v; the model is Model/Flow2.v
+   unchanged, failed runs included).
+
+   flow_ok_mv c   task-only, no feedback; every algorithm produces >= 1 value, no
+                  value twice, no value produced by two algorithms; a declared
+                  input is a value of an algorithm of a lower level that is in the
+                  `ancestry`; kids = the algorithms declaring ONE OR MORE of the
+                  node's values; ancestry transitive; ALL is not a target
+   reachv c a x   a is upstream of x: x declares a value of p, p one of q, ... (a = x included)
+   ====================================================================== *)
+From DV Require Import Proofs.Flow3Inv Proofs.Flow3Main.
+
+(* PARTIAL: still missing: overlapping change events (refuted above), feedback,
+   analyses/regressions.  In the model every value of an algorithm is computed
+   from ALL its declared inputs, so a successful re-run reports all its values
+   new: value-level fan-out is covered in the form "a child is re-run iff it
+   declares one of the values of the re-run algorithm" (a report flagging only
+   SOME values new is covered at trigger level by C02_complete_step /
+   C02_minimal_step, not in the end-state theorem). *)
+Theorem C02_endstate_mv_partial : forall c, flow_ok_mv c = true -> forall es,
+  hist_ok2 c (finit2 c) es = true ->
+  let g := frun_all2 c (finit2 c) es in
+  0 < ctr (fs g) -> quiescent c (fs g) = true ->
+  (forall x t v, x < nnodes (fc c) -> In t (gtargets (fc c)) -> In v (outs c x) ->
+     (forall a, reachv c a x -> wd_has (wd g) a t = false) ->
+     latest (sto (fs g)) t v = lookup (eval_topo c (rin (fs g)) t) v) /\
+  (forall x t, x < nnodes (fc c) -> In t (gtargets (fc c)) ->
+     (forall v, In v (outs c x) -> latest (sto (fs g)) t v = lev c (fs g) t x v) \/
+     exists a, reachv c a x /\ wd_has (wd g) a t = true) /\
+  (forall x t k, In (x, t, k) (wd g) -> k = map (latest (sto (fs g)) t) (outs c x)).
+Proof. exact endstate_failures_mv. Qed.
+Print Assumptions C02_endstate_mv_partial.
+
+(* without failed runs: the full `consistent` predicate of Model/Flow.v *)
+Theorem C02_endstate_mv_nofail_partial : forall c, flow_ok_mv c = true -> forall es,
+  hist_ok2 c (finit2 c) (map F1 es) = true ->
+  let f := frun_all c (finit c) es in
+  0 < ctr f -> quiescent c f = true -> consistent c f = true.
+Proof. exact endstate_mv_nofail. Qed.
+Print Assumptions C02_endstate_mv_nofail_partial.
+
+Theorem C02_endstate_mv_invariant : forall c, flow_ok_mv c = true -> forall es,
+  hist_ok2 c (finit2 c) es = true -> exists b, FInv3 c b (frun_all2 c (finit2 c) es).
+Proof. intros c OK es H. exact (hist_FInv3 c OK es (finit2 c) 0%Z (init_FInv3 c) H). Qed.
+Print Assumptions C02_endstate_mv_invariant.
+
+(* the class of C02_endstate_partial / C02_endstate_failures_partial is inside the wider one *)
+Theorem C02_flow_ok_is_mv : forall c, flow_ok c = true -> flow_ok_mv c = true.
+Proof. exact flow_ok_mv_of_flow_ok. Qed.
+Print Assumptions C02_flow_ok_is_mv.
+
+(* non-vacuity: a produces values 0 and 1; b declares value 0 (produces 2); c
+   declares value 1 (produces 3 and 4); d declares 2 and 4 (produces 5).
+   First event: c fails (c, d withdrawn); second event: all succeed. *)
+Definition ex_mv : fcfg :=
+  {| fc := {| gnodes := [ {| kids := [1; 2]; anc := []; gfac := Task; lvl := 0; ins := [] |};
+                          {| kids := [3]; anc := [0]; gfac := Task; lvl := 1; ins := [0] |};
+                          {| kids := [3]; anc := [0]; gfac := Task; lvl := 1; ins := [1] |};
+                          {| kids := []; anc := [0; 1; 2]; gfac := Task; lvl := 2; ins := [2; 4] |} ];
+              gfb := []; gtargets := [1] |};
+     fouts := [[0; 1]; [2]; [3; 4]; [5]] |}.
+
+Example C02_endstate_mv_example :
+  flow_ok_mv ex_mv = true /\ flow_ok ex_mv = false /\
+  hist_ok2 ex_mv (finit2 ex_mv) ex_fail_hist = true /\
+  hist_ok2 ex_mv (finit2 ex_mv) ex_fail_hist2 = true /\
+  let g := frun_all2 ex_mv (finit2 ex_mv) ex_fail_hist in
+  0 < ctr (fs g) /\ quiescent ex_mv (fs g) = true /\
+  wd g = [(2, 1, [CNone; CNone]); (3, 1, [CNone])] /\
+  latest (sto (fs g)) 1 2 = CVal 2 1 0 [CVal 0 1 1 []] /\
+  lookup (eval_topo ex_mv (rin (fs g)) 1) 2 = CVal 2 1 0 [CVal 0 1 1 []] /\
+  let g2 := frun_all2 ex_mv (finit2 ex_mv) ex_fail_hist2 in
+  quiescent ex_mv (fs g2) = true /\ wd g2 = [] /\ consistent ex_mv (fs g2) = true /\
+  latest (sto (fs g2)) 1 5 = CVal 5 1 0 [CVal 2 1 0 [CVal 0 1 2 []]; CVal 4 1 0 [CVal 1 1 2 []]].
+Proof. vm_compute. repeat split; try reflexivity; try lia. Qed.
